@@ -7,6 +7,7 @@ import (
 	"go/constant"
 	"go/token"
 	"go/types"
+	"strconv"
 	"strings"
 
 	"golang.org/x/tools/go/ssa"
@@ -18,9 +19,9 @@ func init() {
 		Title: "Metamethods are selected and applied by the Lua 5.1 rules",
 		Explanation: "Decided: R04-raw — 'rawget, rawset and rawequal never invoke handlers': in the VTA call graph no function reachable from baseRawGet/baseRawSet/baseRawEqual or from the (*LTable).Raw* accessors is part of the metamethod machinery (callR, Call, PCall, metaOp1, metaOp2, metaCall, metatable, getField*, setField*), and in equals() the handler lookup is on the !raw arm only; " +
 			"R04-events — the event name that reaches metaOp1/metaOp2/objectRational* from each operation equals the Lua 5.1 manual §2.8 table (arithmetic per opcode, __unm, __len, __concat, __eq, __lt, __le with the 'not (b < a)' fallback using swapped operands and negation, __index, __newindex, __call, __tostring, __metatable), operands are passed in source order, the handler is pushed before its operands and exactly one result is requested; binary lookups try the left operand first; comparison handlers are called only when both operands supply the identical handler, and == consults __eq on the table/userdata arm only. " +
-			"R04-siblings — the generic and the string-keyed index/assignment helpers (getField/getFieldString, setField/setFieldString) perform the same sequence of raw lookups, stores, handler calls and raises. NOT decided: raw-first lookup order, __newindex only for absent keys, chain depth — visible only as 'this is how it is written'.",
+			"R04-siblings — the generic and the string-keyed index/assignment helpers (getField/getFieldString, setField/setFieldString) perform the same sequence of raw lookups, stores, handler calls and raises. R04-callself — wherever a __call handler is entered, the value inserted as its first argument is the called object itself (the operand metaCall was applied to), at the call instruction, the tail call and the host-side call path alike. NOT decided: raw-first lookup order, __newindex only for absent keys, chain depth — visible only as 'this is how it is written'.",
 		Trusted: []string{"Lua 5.1 manual §2.8 event table written out in the checker"},
-		Rules:   []func(*Ctx){ruleRaw, ruleEvents, ruleSiblings},
+		Rules:   []func(*Ctx){ruleRaw, ruleEvents, ruleSiblings, ruleCallSelf},
 	})
 }
 
@@ -67,7 +68,7 @@ func ruleRaw(c *Ctx) {
 		or := p.Fn("lua", "objectRational")
 		var raw *ssa.Parameter
 		for _, pm := range fn.Params {
-			if pm.Name() == "raw" {
+			if raw == nil && types.Identical(pm.Type(), types.Typ[types.Bool]) {
 				raw = pm
 			}
 		}
@@ -159,18 +160,18 @@ func ruleEvents(c *Ctx) {
 	specs := []eventSpec{
 		{"OP_UNM", "(*LState).metaOp1", "__unm", 2, nil, ""},
 		{"OP_LEN", "(*LState).metaOp1", "__len", 2, nil, ""},
-		{"(*LState).ObjLen", "(*LState).metaOp1", "__len", 2, []string{"p:v1"}, ""},
+		{"(*LState).ObjLen", "(*LState).metaOp1", "__len", 2, []string{"#0"}, ""},
 		{"stringConcat", "(*LState).metaOp2", "__concat", 3, nil, ""},
-		{"equals", "objectRational", "__eq", 3, []string{"p:lhs", "p:rhs"}, ""},
-		{"lessThan", "objectRationalWithError", "__lt", 3, []string{"p:lhs", "p:rhs"}, ""},
+		{"equals", "objectRational", "__eq", 3, []string{"#0", "#1"}, ""},
+		{"lessThan", "objectRationalWithError", "__lt", 3, []string{"#0", "#1"}, ""},
 		{"OP_LE", "objectRational", "__le", 3, nil, ""},
 		{"OP_LE", "objectRationalWithError", "__lt", 3, nil, "fallback not (b < a)"},
 		{"(*LState).getField", "(*LState).metaOp1", "__index", 2, nil, ""},
 		{"(*LState).getFieldString", "(*LState).metaOp1", "__index", 2, nil, ""},
 		{"(*LState).setField", "(*LState).metaOp1", "__newindex", 2, nil, ""},
 		{"(*LState).setFieldString", "(*LState).metaOp1", "__newindex", 2, nil, ""},
-		{"(*LState).metaCall", "(*LState).metaOp1", "__call", 2, []string{"p:lvalue"}, ""},
-		{"(*LState).ToStringMeta", "(*LState).metaOp1", "__tostring", 2, []string{"p:lv"}, ""},
+		{"(*LState).metaCall", "(*LState).metaOp1", "__call", 2, []string{"#0"}, ""},
+		{"(*LState).ToStringMeta", "(*LState).metaOp1", "__tostring", 2, []string{"#0"}, ""},
 		{"(*LState).metatable", "(*LTable).RawGetString", "__metatable", 1, nil, ""},
 		{"baseSetMetatable", "(*LTable).RawGetString", "__metatable", 1, nil, "protected metatable guard"},
 		{"basePCall", "(*LState).GetMetaField", "__call", 2, nil, ""},
@@ -204,6 +205,10 @@ func ruleEvents(c *Ctx) {
 				continue
 			}
 			k := vkey(hit.Call.Args[1+i])
+			if strings.HasPrefix(want, "#") { // the n-th LValue parameter of the function
+				n, _ := strconv.Atoi(want[1:])
+				want = pkeyAt(paramsOfType(fn, "LValue"), n)
+			}
 			if !strings.Contains(k, want) {
 				okOrder = false
 			}
@@ -256,7 +261,7 @@ func ruleEvents(c *Ctx) {
 		got := map[int64]string{}
 		var opParam ssa.Value
 		for _, pm := range fn.Params {
-			if pm.Name() == "opcode" {
+			if opParam == nil && types.Identical(pm.Type(), types.Typ[types.Int]) {
 				opParam = pm
 			}
 		}
@@ -274,7 +279,8 @@ func ruleEvents(c *Ctx) {
 				}
 			}
 			// operand order
-			ok12 := vkey(cl.Call.Args[1]) == "p:lhs" && vkey(cl.Call.Args[2]) == "p:rhs"
+			lvs := paramsOfType(fn, "LValue")
+			ok12 := len(lvs) == 2 && cl.Call.Args[1] == ssa.Value(lvs[0]) && cl.Call.Args[2] == ssa.Value(lvs[1])
 			c.check(ok12, R, "objectArith:operands", p.ipos(cl), "metaOp2(lhs, rhs, event)", "objectArith looks the handler up with its operands swapped (the right operand's handler wins)")
 		}
 		for name, ev := range want {
@@ -302,7 +308,7 @@ func ruleEvents(c *Ctx) {
 				}
 			}
 		}
-		sameEvent := len(looks) == 2 && vkey(looks[0].Call.Args[2]) == vkey(looks[1].Call.Args[2]) && vkey(looks[0].Call.Args[1]) == "p:lhs" && vkey(looks[1].Call.Args[1]) == "p:rhs"
+		sameEvent := len(looks) == 2 && vkey(looks[0].Call.Args[2]) == vkey(looks[1].Call.Args[2]) && vkey(looks[0].Call.Args[1]) == pkeyAt(paramsOfType(fn, "LValue"), 0) && vkey(looks[1].Call.Args[1]) == pkeyAt(paramsOfType(fn, "LValue"), 1)
 		c.check(okc && sameEvent, R, "objectRational:identical-handler", p.pos(fn.Pos()), "the handler is called only when the left and the right operand's handlers for the event are the same value", "comparison metamethods (__eq, __lt, __le) are applied although the two operands do not supply the identical handler: a == b calls the left handler for objects with different __eq functions")
 	}
 	// equals: only tables and userdata reach the handler
@@ -340,7 +346,7 @@ func ruleEvents(c *Ctx) {
 		mt := p.Fn("lua", "(*LState).metatable")
 		calls := callsTo(fn, mt)
 		g := p.G(fn)
-		okc := len(calls) == 2 && vkey(calls[0].Call.Args[1]) == "p:value1" && vkey(calls[1].Call.Args[1]) == "p:value2" && (g.Dominates(calls[0], calls[1]))
+		okc := len(calls) == 2 && vkey(calls[0].Call.Args[1]) == pkeyAt(paramsOfType(fn, "LValue"), 0) && vkey(calls[1].Call.Args[1]) == pkeyAt(paramsOfType(fn, "LValue"), 1) && (g.Dominates(calls[0], calls[1]))
 		c.check(okc, R, "metaOp2:left-first", p.pos(fn.Pos()), "the left operand's metatable is consulted before the right one's", "metaOp2 does not try the left operand first")
 	}
 	// handler invocation: handler pushed first, operands in parameter order, one result
@@ -491,4 +497,78 @@ func min(a, b int) int {
 		return a
 	}
 	return b
+}
+
+
+// ruleCallSelf: "__call: the handler is called with the object as first argument". Three entries into a
+// call share the shape: (handler, meta) := metaCall(obj); if meta { insert obj in front of the arguments }.
+// The go-inlined copies in the CALL/TAILCALL handlers and callR → pushCallFrame must all insert obj.
+func ruleCallSelf(c *Ctx) {
+	const R = "R04-callself"
+	c.floor(R, 4)
+	p := c.P
+	metaCall := p.Fn("lua", "(*LState).metaCall")
+	insert := p.Fn("lua", "(*registry).Insert")
+	push := p.Fn("lua", "(*LState).pushCallFrame")
+	if metaCall == nil || insert == nil || push == nil {
+		c.und(R, "anchors", "-", "metaCall / registry.Insert / pushCallFrame not found")
+		return
+	}
+	// the metaCall a boolean flag comes from
+	var flagSource func(v ssa.Value, d int) *ssa.Call
+	flagSource = func(v ssa.Value, d int) *ssa.Call {
+		if d > 4 {
+			return nil
+		}
+		switch x := v.(type) {
+		case *ssa.Extract:
+			if cl, ok := x.Tuple.(*ssa.Call); ok && cl.Call.StaticCallee() == metaCall && x.Index == 1 {
+				return cl
+			}
+		case *ssa.Phi:
+			for _, e := range x.Edges {
+				if cl := flagSource(e, d+1); cl != nil {
+					return cl
+				}
+			}
+		}
+		return nil
+	}
+	sameObj := func(v ssa.Value, mc *ssa.Call) bool {
+		a, b := stripMI(v), stripMI(mc.Call.Args[1])
+		return a == b || vkey(a) == vkey(b)
+	}
+	for _, fn := range p.srcFuncs {
+		if fn.Pkg == nil || fn.Pkg.Pkg.Path() != luaPath {
+			continue
+		}
+		var g *PCFG
+		for _, cl := range callsTo(fn, insert) {
+			if g == nil {
+				g = p.G(fn)
+			}
+			for _, cd := range g.CondsAtInstr(cl) {
+				if !cd.Sense {
+					continue
+				}
+				if pm, ok := cd.V.(*ssa.Parameter); ok && fn == push {
+					// pushCallFrame itself: inserts its LValue parameter under its bool parameter
+					lvs := paramsOfType(fn, "LValue")
+					c.Sites++
+					c.check(len(lvs) == 1 && stripMI(cl.Call.Args[1]) == ssa.Value(lvs[0]) && types.Identical(pm.Type(), types.Typ[types.Bool]), R, "pushCallFrame:inserts-its-object-parameter", p.ipos(cl), "under the meta flag the object parameter is inserted in front of the arguments", "pushCallFrame inserts something other than the called object as the handler's first argument")
+					continue
+				}
+				if mc := flagSource(cd.V, 0); mc != nil {
+					c.Sites++
+					c.check(sameObj(cl.Call.Args[1], mc), R, fname(fn)+":inserts-called-object", p.ipos(cl), "the __call handler's first argument is the operand metaCall was applied to", fname(fn)+" enters a __call handler with a first argument that is not the called object (the handler receives itself or another value): obj(...) behaves differently on this call path")
+				}
+			}
+		}
+		for _, cl := range callsTo(fn, push) {
+			if mc := flagSource(cl.Call.Args[3], 0); mc != nil {
+				c.Sites++
+				c.check(sameObj(cl.Call.Args[2], mc), R, fname(fn)+":passes-called-object", p.ipos(cl), "pushCallFrame receives the operand metaCall was applied to", fname(fn)+" hands pushCallFrame a value other than the called object (for instance the resolved handler): on this path — pcall(obj), a callable generic-for iterator, the host API — a __call handler receives itself instead of the object")
+			}
+		}
+	}
 }
